@@ -40,6 +40,9 @@ def main() -> None:
     import warnings
 
     warnings.simplefilter("ignore")
+    from sim.sched import install_lock_seam
+
+    install_lock_seam()  # before sqllineage is imported: module-level locks become scheduling points
     for m in preload:
         importlib.import_module(m)
     sys.stdout.write("READY %s\n" % os.environ.get("PYTHONHASHSEED", "?"))
